@@ -600,4 +600,46 @@ PROPS["C12"] = dict(
                 script="harness/c12_convert.py", weight=2)],
 )
 
+PROPS["C11"] = dict(
+    level="model_checking",
+    rule="(1) c11_staticgraphs (seqx, 12 cases): EVERY directed multigraph "
+         "with n<=3 nodes and m<=3 (quick) / m<=4 (thorough; 7728 graphs) "
+         "edges as an ORDERED edge list x edge data void / uint32 / uint64 / "
+         "12-byte POD x T=1..4 construction threads, written by an "
+         "independent .gr encoder (gr_format.h), through LC_CSR, LC_CSR_CSC, "
+         "LC_InOut (over CSR and Linear), LC_Linear, LC_InlineEdge, LC_Morph, "
+         "LC_Adaptor via readGraph and via constructFrom / array builders; "
+         "oracle per graph: node count, per-node out-edge SEQUENCE (file "
+         "order) or multiset where the layout promises no order, in-edges = "
+         "transposed multiset with data, transpose(), sortEdgesByDst / "
+         "ByEdgeData are sorted permutations, findEdge / findEdgeSortedByDst "
+         "membership for every pair, degrees, per-thread local ranges and "
+         "determineUnitRangesFromGraph partition the nodes; plus a structured "
+         "family of 22 graphs up to 3000 nodes through all layouts. "
+         "(2) c11_builders (gsched): constructFrom from vectors, in-place "
+         "transpose(), transpose twice, constructIncomingEdges (atomic slot "
+         "claiming) on three 3-4 node multigraphs, T=2-3, all schedules with "
+         "<= d deviations (d=1-2 quick, 2-3 thorough). Non-trivial = >=2 "
+         "nodes and >=2 edges / distinct traces with >= 1 deviation",
+    bound_note="exhaustive to the stated graph sizes; T>=3 runs a reduced "
+               "programme (readGraph + non-modifying checks) except on the "
+               "structured family",
+    assumptions=E2_ASSUME + E1_ASSUME + [
+        "builders that do not compile are outside the property (opt-in "
+        "diagnostic VERIF_COMPILE_PROBES=1)"],
+    deadline=dict(quick=300, thorough=3000),
+    technique="bounded-exhaustive enumeration of all small multigraphs "
+              "through every layout and view (seqx) plus exhaustive "
+              "deviation-bounded schedule enumeration of the parallel "
+              "builders (gsched)",
+    level_text="every graph below the stated size is built in every layout "
+               "and compared with the input; parallel builders are run under "
+               "all schedules up to d deviations",
+    level_note="construction thread interleavings in part (1) are "
+               "uncontrolled; part (2) controls them for 3-4 node graphs",
+    design_ref="DESIGN.md 3, 7/C11",
+    parts=[dict(engine="e2", harness="c11_staticgraphs", weight=3),
+           dict(engine="e1", harness="c11_builders", weight=1)],
+)
+
 NOT_APPLICABLE = {}
